@@ -1,16 +1,22 @@
 (* C14: prints, for every case (id, script, finalize, ctx, runs) of Cases.cases, "<id> <hex sql | -> ..." :
-   the statements of `runs` Process calls on one plan object under one context (LogqlCases.script_sqls) *)
+   the statements of `runs` Process calls on one plan object under one context (LogqlCases.script_sqls);
+   and for every profile case (id, mode, selectors, context, windows) of Cases.pcases, "P<id> <hex sql | -> ..." :
+   the statements of one profile planner object executed for each window (ReplanProf.prof_case_sqls) *)
 let hex_of_chars (l : char list) : string =
   let b = Buffer.create 4096 in
   List.iter (fun c -> Buffer.add_string b (Printf.sprintf "%02x" (Char.code c))) l;
   Buffer.contents b
 
+let put id res =
+  print_string id;
+  List.iter (fun o -> print_char ' '; match o with
+    | Some s -> print_string (hex_of_chars s)
+    | None -> print_string "-") res;
+  print_newline ()
+
 let () =
   List.iter (fun (id, script, fin, ctx, runs) ->
     let rec nat_of_int n = if n <= 0 then Replanmodel.O else Replanmodel.S (nat_of_int (n - 1)) in
-    let res = Replanmodel.script_sqls script fin ctx (nat_of_int runs) in
-    print_string (string_of_int id);
-    List.iter (fun o -> print_char ' '; match o with
-      | Some s -> print_string (hex_of_chars s)
-      | None -> print_string "-") res;
-    print_newline ()) Cases.cases
+    put (string_of_int id) (Replanmodel.script_sqls script fin ctx (nat_of_int runs))) Cases.cases;
+  List.iter (fun (id, mode, sels, ctx, ws) ->
+    put ("P" ^ string_of_int id) (Replanmodel.prof_case_sqls mode sels ctx ws)) Cases.pcases
